@@ -5,7 +5,10 @@ the method-editor service, nor send it commands, method edits, cancels or forces
 the unit or run.  Units and runs that require no roles are open to everyone.  (docs/src/User Authorization (OIDC).rst: access is
 "restricted to those users who have any of the roles in a given list".)
 
-Case    : {"required": [...], "user": [...], "route": "<METHOD> <route path>", "content": {...}}   roles over {A, B, C}.
+Case    : {"required": [...], "user": [...], "route": "<METHOD> <route path>", "content": {...}}   roles over {A, B, C(, D)}
+          exhaustively, plus pairs of free-text role names with LIKE/JSON metacharacters and near-collisions (TRICKY_PAIRS:
+          'Pilot_Plant' vs 'Pilot-Plant', 'QC%' vs 'QC-Lab', 'Lab' vs 'Lab2', 'admin' vs 'Admin', quotes, blanks ...); two roles
+          are the same only if the strings are equal.
 World   : the real FastAPI application (vp.harness.api_h) with
             T  online unit "PC-T (UodT)" requiring `required`: UOD definition, readings, tags, method (saved once by an entitled
                user), a finished run run-T-old (stored as recent run with run log, method, error log, plot log, archive) and -
@@ -53,7 +56,10 @@ TECHNIQUE = ("real FastAPI app + TestClient, identity injected via dependency_ov
              "required-role x user-role sets over {A,B,C} per route; metamorphic twin world (unit data replaced) for non-interference; "
              "engine-side rpc recording; LSP websocket session (initialize/didOpen/hover/completion)")
 RULE = ("Every discovered route that takes a unit, engine or run id, the unit and run listings, the tmLanguage route and the LSP "
-        "websocket session x all 8 required-role sets x all 8 user-role sets over {A,B,C} x Hypothesis-generated unit/run content. "
+        "websocket session x all 8 required-role sets x all 8 user-role sets over {A,B,C} (thorough: 16 x 16 over {A,B,C,D}) plus a list "
+        "of (required, user) pairs of free-text role names with LIKE/JSON metacharacters and near-collisions ('Pilot_Plant' vs "
+        "'Pilot-Plant', 'QC%' vs 'QC-Lab', 'Lab' vs 'Lab2', 'admin' vs 'Admin', quotes, blanks; thorough: derived systematically "
+        "from 8 names) x fixed and Hypothesis-generated unit/run content. "
         "Non-trivial = an unauthorised combination (required non-empty, no common role) on a route whose template returns unit/run "
         "data or forwards a command for an entitled user. Distinct = distinct (required, user, route, content).")
 ASSUMPTIONS = [
@@ -61,13 +67,14 @@ ASSUMPTIONS = [
     "the LSP endpoints take no identity at all, so the same anonymous request is sent for every user-role set",
     "lint diagnostics of the language server (textDocument/publishDiagnostics) are not observed: pylsp debounces them on a wall-clock timer thread; hover and completion are",
     "the frontend pub/sub websocket, the web-push routes and the engine-side routes do not take a unit or run in their path and are classified out of scope (C33 covers push targeting)",
+    "two roles are the same role only if their names are equal strings (case sensitive, as the set intersection of has_access and Azure role values are); near-colliding names are different roles",
     "one judged request per case on a fresh world (own engine/run ids), optionally preceded by another user's read requests in the same application; the same sequence runs against the twin world only when the judged answer was not 403",
     "content['stale'] (when not null): the unit's RecentEngines row was written while the same engine id required other roles (disconnect, UOD roles changed, engine restarted); the live unit's roles decide",
     "content['other'] (when not null) gives the object the route does NOT address other required roles: for unit routes the finished run was stored while the unit required `other`; for run routes the unit (and the offline unit) require `other` now - the decision must follow the addressed object",
 ]
 TIERS = {
     "quick": {"roles": "ABC", "fixed_contents": 2, "drawn_contents": 0, "exhaustive": True, "budget_s": 170},
-    "thorough": {"roles": "ABCD", "fixed_contents": 3, "drawn_contents": 2, "exhaustive": True, "budget_s": 850},
+    "thorough": {"roles": "ABCD", "fixed_contents": 3, "drawn_contents": 1, "exhaustive": True, "budget_s": 850},
 }
 ROLES = ("A", "B", "C", "D")          # quick uses {A,B,C}; thorough all four (256 combinations per route)
 
@@ -194,7 +201,9 @@ _SPEC_BY_KEY = {route_key(m, p): s for (m, p), s in TABLE.items() if s["scope"] 
 # ---- domain guard ------------------------------------------------------------------------------------------
 
 def _valid_roles(x):
-    return isinstance(x, list) and all(r in ROLES for r in x) and len(set(x)) == len(x)
+    # role names are free text from the identity provider
+    return (isinstance(x, list) and len(x) <= 6 and all(isinstance(r, str) and 0 < len(r) <= 40 for r in x)
+            and len(set(x)) == len(x))
 
 
 def _valid_content(c):
@@ -560,18 +569,63 @@ FIXED_CONTENTS = [
 ]
 
 
+# Role names are free text (Azure app role values).  These pairs (required, user) use names with SQL LIKE / JSON metacharacters and
+# near-collisions: one differs from the other by a wildcard character, by case, by a prefix/suffix, by quoting.  Two roles are the
+# same role only if the strings are equal, so most pairs are unauthorised; the last ones are entitled controls with the same names.
+TRICKY_PAIRS = [
+    (["Pilot-Plant"], ["Pilot_Plant"]), (["Pilot_Plant"], ["Pilot-Plant"]),
+    (["QC-Lab"], ["QC%"]), (["QC%"], ["QC-Lab"]),
+    (["axb"], ["a_b"]), (["a_b"], ["axb"]),
+    (["Lab2"], ["Lab"]), (["Lab"], ["Lab2"]),
+    (["Admin"], ["admin"]), (["admin"], ["Admin"]),
+    (["Operator", "Pilot-Plant"], ["Guest", "Pilot_Plant"]),
+    (["Operator"], ["%"]), (["Operator"], ["________"]), (["Operator"], ["Oper%"]), (["Operator"], ["%rator"]),
+    (["a\"b"], ["a"]), (["Lab "], ["Lab"]), (["A"], ["\", \""]), (["A", "B"], ["A\", \"B"]), (["A"], ["[\"A\"]"]),
+    (["\u00c4pfel"], ["Apfel"]), (["a\\b"], ["a\\\\b"]),
+    (["Pilot_Plant"], ["Pilot_Plant"]), (["QC%"], ["QC%", "Guest"]), (["a_b", "axb"], ["axb"]), (["a\"b"], ["a\"b"]),
+    (["Lab "], ["Lab "]), (["\u00c4pfel"], ["\u00c4pfel"]),
+]
+TRICKY_CONTENTS = [
+    {"k": 19, "n_lines": 1, "n_errors": 1, "n_runlog": 1, "run": True, "running": True, "archive": True, "str_tag": False, "other": None,
+     "stale": None, "warm": None},
+]
+_TRICKY_NAMES = ["Pilot-Plant", "QC-Lab", "axb", "Lab", "Admin", "Op 1", "R&D", "x.y"]
+
+
+def tricky_pairs(thorough: bool):
+    """the curated pairs; thorough adds systematically derived near-collisions of more names, in both directions"""
+    pairs = [(list(r), list(u)) for r, u in TRICKY_PAIRS]
+    if thorough:
+        seen = {json.dumps(p) for p in pairs}
+        for name in _TRICKY_NAMES:
+            variants = [name + "2", name[:-1], name.swapcase(), name.lower(), name + "%", "%" + name, "%" + name[1:], name[:-1] + "_",
+                        "_" * len(name), name + " ", " " + name, name + "\"", name.replace(name[len(name) // 2], "_"),
+                        name.replace(name[len(name) // 2], "%")]
+            for v in variants:
+                if v and v != name:
+                    for p in (([name], [v]), ([v], [name]), ([name, "Guest"], [v, "Other"])):
+                        key = json.dumps(p)
+                        if key not in seen:
+                            seen.add(key)
+                            pairs.append(p)
+    return pairs
+
+
 def run_shard(col, cfg):
     with ApiHarness() as h:
         keys = discover(h)
         sets = role_sets(cfg["roles"])
         cells = [(key, req, usr) for key in keys for req in sets for usr in sets]
+        tricky = [(key, req, usr) for key in keys for req, usr in tricky_pairs(cfg["roles"] == "ABCD")]
         mine = [c for i, c in enumerate(cells) if i % col.nshards == col.shard]
+        mine_tricky = [c for i, c in enumerate(tricky) if i % col.nshards == col.shard]
         col.extra["routes_in_scope"] = "%d: %s" % (len(keys), "; ".join(keys))
         col.extra["routes_out_of_scope"] = "; ".join("%s %s (%s)" % (m, p, s["reason"]) for (m, p), s in TABLE.items() if s["scope"] == "out")
-        col.extra["role_combinations_per_route"] = "%d" % (len(sets) ** 2)
+        col.extra["role_combinations_per_route"] = "%d over %s + %d pairs of near-colliding free-text role names" % (
+            len(sets) ** 2, cfg["roles"], len(tricky) // max(1, len(keys)))
 
-        def body(content):
-            for key, req, usr in mine:
+        def body(content, my_cells=None):
+            for key, req, usr in (mine if my_cells is None else my_cells):
                 if col.expired():
                     return
                 case = {"required": req, "user": usr, "route": key, "content": content}
@@ -581,10 +635,14 @@ def run_shard(col, cfg):
                         classes.append("content:" + name)
                 if content.get("stale") is not None:
                     classes.append("stale-row:" + ("same-roles" if sorted(content["stale"]) == sorted(req) else "other-roles"))
+                if my_cells is not None:
+                    classes.append("role-names:tricky")
                 col.record(case, nontrivial, classes=classes, violations=vs)
 
         for content in FIXED_CONTENTS[:int(cfg["fixed_contents"])]:
             body(content)
+        for content in TRICKY_CONTENTS:
+            body(content, mine_tricky)
         if int(cfg["drawn_contents"]) > 0:
             hyp_run(contents(), body, int(cfg["drawn_contents"]), shard_seed(col.seed, col.shard), col)
 
